@@ -7,6 +7,7 @@ import ImapVerif.Show
 import ImapVerif.Builders
 import ImapVerif.BodyStruct
 import ImapVerif.Owned
+import ImapVerif.Client
 
 open Bytes
 
@@ -86,8 +87,77 @@ def showBsp (toks : List String) : String :=
     | _, _ => "bad-op"
   | _ => "bad-op"
 
+/-! client ops -/
+
+def revOf (t : String) : Option Client.REv :=
+  if t == "p" then some .pending
+  else if t == "e" then some .eof
+  else if t == "x" then some .err
+  else if t.startsWith "d" then some (.data (ofHex (t.drop 1).toString))
+  else none
+
+def wevOf (t : String) : Option Client.WEv :=
+  if t == "p" then some .pending
+  else if t == "x" then some .err
+  else if t == "f" then some .flushed
+  else if t.startsWith "a" then (t.drop 1).toString.toNat?.map .acc
+  else none
+
+def listOf (f : String → Option α) (s : String) : Option (List α) :=
+  if s == "-" then some [] else (s.splitOn ",").mapM f
+
+def showItem : Client.PollR → String
+  | .pending => "P"
+  | .done => "N"
+  | .item .error => "E"
+  | .item (.frame f) => s!"F{f.raw.length},{Ser.response f.value}"
+
+/-- poll a bare `Framed` stream `n` times -/
+def framesGo : Nat → Client.Rd → List Client.REv → List String → List String × Client.Rd
+  | 0, s, _, acc => (acc.reverse, s)
+  | n + 1, s, rs, acc =>
+    match Client.pollNext s rs with
+    | (r, s', rs', k) => framesGo n s' rs' (s!"{k}:{showItem r}" :: acc)
+
+def showFrames (r n : String) : String :=
+  match listOf revOf r, n.toNat? with
+  | some rs, some n =>
+    let (out, s) := framesGo n {} rs []
+    "|".intercalate out ++ " RBUF=" ++ toHex s.rbuf
+  | _, _ => "bad-op"
+
+def pollsGo : Nat → Client.RStream → Client.Conn → List Client.REv → List Client.WEv → List String →
+    List String × Client.Conn × List Client.REv × List Client.WEv
+  | 0, _, c, rs, ws, acc => (acc.reverse, c, rs, ws)
+  | n + 1, s, c, rs, ws, acc =>
+    let st := Client.Stream.pollNext s c rs ws
+    pollsGo n st.s st.c st.rs st.ws (s!"{String.ofList st.calls}:{showItem st.res}" :: acc)
+
+def cmdsGo : List (Bytes × Nat) → Client.Conn → List Client.REv → List Client.WEv → List String →
+    List String × Client.Conn
+  | [], c, _, _, acc => (acc.reverse, c)
+  | (args, n) :: rest, c, rs, ws, acc =>
+    let (c1, s) := c.call args
+    let (out, c2, rs', ws') := pollsGo n s c1 rs ws []
+    cmdsGo rest c2 rs' ws' ((toHex s.tag ++ "=" ++ "|".intercalate out) :: acc)
+
+def cmdOf (t : String) : Option (Bytes × Nat) :=
+  match t.splitOn ":" with
+  | [a, n] => n.toNat?.map fun n => (arg a, n)
+  | _ => none
+
+def showSession (r w c : String) : String :=
+  match listOf revOf r, listOf wevOf w, listOf cmdOf c with
+  | some rs, some ws, some cmds =>
+    let (out, conn) := cmdsGo cmds {} rs ws []
+    ";".intercalate out ++ " WIRE=" ++ toHex conn.wr.wire ++ " WBUF=" ++ toHex conn.wr.wbuf ++
+      " RBUF=" ++ toHex conn.rd.rbuf
+  | _, _, _ => "bad-op"
+
 def step (line : String) : String :=
   match line.trimAscii.toString.splitOn " " with
+  | ["frames", r, n] => showFrames r n
+  | ["session", r, w, c] => showSession r w c
   | ["owned", h] => showOwned (ofHex h)
   | ["qstr", h] => showQ (Builders.quotedString (arg h))
   | ["text", "login", a, b] => showQ (Builders.login (arg a) (arg b))
